@@ -11,7 +11,10 @@ import drv_brokerclient as D
 
 MODEL = "brokerclient"
 MODULE = "Model.BrokerClient"
-POLICIES = ["const", "twisted", "twisted_fast", "table:11", "table:12"]
+# "+cc": a cancelled connection attempt fails with ConnectingCancelledError as Twisted's stock endpoints do (drv CcNet)
+POLICIES = ["const", "twisted", "twisted_fast+cc", "table:11", "table:12+cc", "const+cc", "twisted+cc"]
+ENUM_POLICY = "const+cc"
+NATIVE_READY = False     # Model/BrokerClientHook.v is being reworked: native (in-loop) re-entrancy parts switched off meanwhile
 
 F1 = D.reply(1)
 F2 = D.reply(2, b"x")
@@ -194,7 +197,7 @@ def alphabet(kind):
 
 
 def _expand(seq, alpha, hook=False):
-    im = HookImpl("const", None, {}) if hook else D.Impl("const")
+    im = HookImpl(ENUM_POLICY, None, {}) if hook else D.Impl(ENUM_POLICY)
     for ev in seq:
         im.apply(ev)
     nxt = [ev for ev in alpha if im.enabled(ev) and not (ev[0] == "close" and im.closed)]
@@ -286,20 +289,20 @@ def exhaustive(ck, depth, kind, which, tied, rnd, procs=16, split_depth=3):
                           "differing_cases": st["differences"], "replay_op": "bc-hook"}, no_input=True)
     elif mon:
         seq, (thm, msg, idx) = mon[0]
-        small = D.shrink(seq, failing_fn(thm, which, "const"))
+        small = D.shrink(seq, failing_fn(thm, which, ENUM_POLICY))
         ck.violation({"kind": "monitor (exhaustive small-scope enumeration)", "theorem": thm, "message": msg,
-                      "events": D.jsonable(small), "policy": "const", "replay_op": "bc"})
+                      "events": D.jsonable(small), "policy": ENUM_POLICY, "replay_op": "bc"})
     elif dif:
         seq, it, mt = min(dif, key=lambda d: len(d[0]))
-        cand, bad = search_around(seq, "const", which, rnd, len(seq) - 1)
+        cand, bad = search_around(seq, ENUM_POLICY, which, rnd, len(seq) - 1)
         if cand:
             thm = bad[0][0]
-            small = D.shrink(cand, failing_fn(thm, which, "const"))
+            small = D.shrink(cand, failing_fn(thm, which, ENUM_POLICY))
             ck.violation({"kind": "monitor (found by searching around an exhaustive-enumeration difference)", "theorem": thm,
-                          "message": bad[0][1], "events": D.jsonable(small), "policy": "const", "replay_op": "bc"})
+                          "message": bad[0][1], "events": D.jsonable(small), "policy": ENUM_POLICY, "replay_op": "bc"})
         else:
             ck.violation({"kind": "correspondence broken", "correspondence": "corr:brokerclient:" + label,
-                          "theorems_no_longer_tied": tied, "events": D.jsonable(seq), "policy": "const", "impl": it, "model": mt,
+                          "theorems_no_longer_tied": tied, "events": D.jsonable(seq), "policy": ENUM_POLICY, "impl": it, "model": mt,
                           "differing_cases": st["differences"], "replay_op": "bc"}, no_input=True)
     if len(ck.cov["samples"]) < 8 and results:
         s = results[0]["sample"]
@@ -563,7 +566,9 @@ def enc_hcase(events, guard=1):
 
 def hooked_history(rnd, length, native=False):
     hooks = {}
-    im = HookImpl("const", None, hooks)
+    pk = rnd.choice(["const", "const+cc"])
+    im = HookImpl(pk, None, hooks)
+    im.pk = pk
     events, nxt, extra = [], 1, 1000
     for _ in range(length):
         opts = [("make", 25.0 if (im.transport() or not native) else 70.0)]
@@ -669,14 +674,14 @@ def reentrant_part(ck, rnd, n, tied, native=False):
         events, hooks, im = hooked_history(rnd, rnd.choice([10, 25, 50]), native)
         mev, counts = hooked_model_case(events, im.hook_fired)
         cases.append(enc_hcase(mev) if native else D.enc_case(mev))
-        metas.append((events, hooks, im.records, counts, len(im.hook_fired) + im.native_fired))
+        metas.append((events, hooks, im.records, counts, len(im.hook_fired) + im.native_fired, im.pk))
         ck.hist("reentrant_calls", len(im.hook_fired))
         ck.hist("reentrant_calls_from_no_reply_callbacks", im.native_fired)
         for _i, a in im.hook_fired:
             ck.hist("reentrant_" + a[0])
     mo = ck.model("brokerclienthook" if native else MODEL, cases)
     ndiff, first, raised = 0, None, None
-    for i, ((events, hooks, records, counts, _nf), mt) in enumerate(zip(metas, mo)):
+    for i, ((events, hooks, records, counts, _nf, _pk), mt) in enumerate(zip(metas, mo)):
         if raised is None and generic_monitor(records, ck.pid):
             raised = i
         if merge_segments(mt, counts) != split_trace(D.enc_trace(records)):
@@ -691,27 +696,27 @@ def reentrant_part(ck, rnd, n, tied, native=False):
         if m[4]:
             ck._distinct.add(vlib.hashlib.sha1(vlib.encode_line(c).encode()).digest()[:8])
     if raised is not None:
-        events, hooks, records, counts, _nf = metas[raised]
+        events, hooks, records, counts, _nf, pk = metas[raised]
 
         thm0 = generic_monitor(records, ck.pid)[0]
 
         def failing(evs):
-            g = generic_monitor(run_hooked(evs, hooks).records, ck.pid)
+            g = generic_monitor(run_hooked(evs, hooks, pk).records, ck.pid)
             return bool(g) and g[0] == thm0
         # dropping events renumbers handles, so only a suffix is cut off
         small = list(events)
         while len(small) > 1 and failing(small[:-1]):
             small = small[:-1]
-        im = run_hooked(small, hooks)
+        im = run_hooked(small, hooks, pk)
         g = generic_monitor(im.records, ck.pid)
         ck.violation({"kind": "monitor: a call made from inside a Deferred callback breaks the theorem",
                       "theorem": g[0], "message": g[1] + ("; exception %s" % im.last_exc if hasattr(im, "last_exc") else ""),
-                      "events": D.jsonable(small), "hooks": {str(k): D.jsonable([v])[0] for k, v in hooks.items() if k < len(im.handles)},
+                      "events": D.jsonable(small), "hooks": {str(k): D.jsonable([v])[0] for k, v in hooks.items() if k < len(im.handles)}, "policy": pk,
                       "impl_outputs": [[D.jsonable([o])[0] for o in r[2]] for r in im.records], "replay_op": "bc-hook"})
     elif first is not None:
-        events, hooks, records, counts, _nf = metas[first]
+        events, hooks, records, counts, _nf, pk = metas[first]
         ck.violation({"kind": "correspondence broken", "correspondence": "corr:brokerclient:" + label, "theorems_no_longer_tied": tied,
-                      "events": D.jsonable(events), "hooks": {str(k): D.jsonable([v])[0] for k, v in hooks.items()},
+                      "events": D.jsonable(events), "hooks": {str(k): D.jsonable([v])[0] for k, v in hooks.items()}, "policy": pk,
                       "impl": D.enc_trace(records), "model": mo[first], "differing_cases": ndiff, "replay_op": "bc-hook"}, no_input=True)
     return st
 
